@@ -31,7 +31,7 @@ ASSUMPTIONS = [
     "callbacks do not assign; faults are disarmed while probing",
     "which of the remaining watchers of the failing dispatch still run is not claimed (only the state afterwards)",
 ]
-SIZES = {"quick": 1200, "thorough": 8000}
+SIZES = {"quick": 900, "thorough": 8000}
 EXHAUSTIVE_NOTE = ("one fault x {site kind} x {position} x {nesting: none, batch, batch>batch, discard, updctx, batch>discard} x "
                    "{caught inside the surrounding batch or propagated} under a fixed 4-watcher configuration")
 
@@ -61,6 +61,7 @@ def _leaf(fam):
         st.tuples(st.just("event"), t),
         st.tuples(st.just("ctor"), st.booleans()),
         st.tuples(st.just("bad_trigger"), t, n),
+        st.tuples(st.just("unknown_trigger"), t, n),
     ).map(list)
 
 
@@ -130,6 +131,7 @@ def enumerate_cases(tier):
     sites.append(("unknown_key", [["update", 0, [["v", 0, 1], ["ev"], ["unknown"]]]], []))
     sites.append(("unknown_key_first", [["update", 0, [["unknown"], ["ev"], ["v", 0, 1]]]], []))
     sites.append(("rejected_trigger", [["bad_trigger", 0, 0]], []))
+    sites.append(("unknown_trigger", [["unknown_trigger", 0, 0]], []))
     sites.append(("ctor", [["ctor", True]], []))
     for bk in ("batch", "discard", "editconst", "updctx"):
         for j in (0, 1, 2):
@@ -146,13 +148,7 @@ def enumerate_cases(tier):
 
 class _W(World):
     def __init__(self, specs):
-        import vlib.dispatch as d
-        saved = d.PNAMES[3]
-        d.PNAMES[3] = "ev"
-        try:
-            super().__init__(specs, with_event=True)
-        finally:
-            d.PNAMES[3] = saved
+        super().__init__(specs, with_event=True, pnames=["a", "b", "c", "ev", "num"])
 
     def snapshot(self, tidx):
         t = self.targets[tidx]
@@ -171,13 +167,7 @@ def _twin_of(world, specs):
         tw.targets[i] = tw.W(**vals)
     tw.o1, tw.o2 = tw.targets[0], tw.targets[1]
     for wid in range(len(specs)):
-        import vlib.dispatch as d
-        saved = d.PNAMES[3]
-        d.PNAMES[3] = "ev"
-        try:
-            tw.register(wid)
-        finally:
-            d.PNAMES[3] = saved
+        tw.register(wid)
     return tw
 
 
@@ -372,6 +362,14 @@ def execute(case):
                 raise
             finally:
                 o.param.num.bounds = saved
+        elif kind == "unknown_trigger":
+            t = node[1]
+            try:
+                world.targets[t].param.trigger(NAMES[node[2]], "nosuchparameter")
+            except (KeyError, ValueError):
+                note_fault("unknown_trigger")
+                state["labels"].add("fault_during_trigger")
+                raise ValueError("unknown name given to trigger")
         elif kind == "event":
             t = node[1]
             try:
